@@ -56,6 +56,9 @@
 #ifndef VP_SHAPE
 #define VP_SHAPE 0
 #endif
+#ifndef VP_CAP
+#define VP_CAP 300
+#endif
 #define VP_NE (VP_E + 1)          /* pre-state entries + the one an insert creates */
 #define VP_TABLEN 4
 
@@ -567,7 +570,11 @@ vp_build(void) {
     vp_tab1[b] = NULL;
 #endif
   sh = VP_SH;
-  g_cap = vp_u16();
+  /* concrete per query: a symbolic capacity makes "capacity > 0" in
+     lru_shard_insert, hence the new entry's list membership and every list
+     pointer after it, symbolic (measured: 60x).  Charges are symbolic 0..255,
+     so both sides of "usage > capacity" are explored with VP_CAP = 300. */
+  g_cap = VP_CAP;
   sh->capacity = g_cap;
   for (j = 0; j < 4; j++)
     vp_htab[j] = ((uint32_t)VP_S << (32 - LDB_SHARD_BITS)) | (vp_u32() & 0x0fffffffu);
